@@ -236,4 +236,59 @@ theorem movePosN_lz_bounds (N : NormParams) (hN : N.ok) (P : Hc4Params) (c : Cfg
       constructor <;> omega
   · rw [if_neg ha]; exact ⟨hlo, hhi⟩
 
+theorem findAfter_lzPos (P : Hc4Params) (c : Cfg) (d : Array UInt8) (s1 : State) (p avail : Nat) :
+    (findAfter P c d s1 p avail).2.lzPos = s1.lzPos := by
+  unfold findAfter
+  split
+  · rfl
+  · simp only [setChain_lzPos, updateTables_lzPos]
+
+theorem skip1After_lzPos (P : Hc4Params) (c : Cfg) (d : Array UInt8) (s1 : State) (p avail : Nat) :
+    (skip1After P c d s1 p avail).lzPos = s1.lzPos := by
+  unfold skip1After
+  split
+  · simp only [setChain_lzPos, updateTables_lzPos]
+  · rfl
+
+/-- `cyclic_size ≤ lz_pos < maxPos` -/
+def LzB (N : NormParams) (P : Hc4Params) (c : Cfg) (s : State) : Prop :=
+  cyclicSize P c ≤ s.lzPos ∧ s.lzPos < N.maxPos
+
+theorem findN_lzB (N : NormParams) (hN : N.ok) (P : Hc4Params) (c : Cfg) (d : Array UInt8) (s : State)
+    (h : LzB N P c s) : LzB N P c (findN N P c d s).2 := by
+  unfold LzB findN
+  rw [findAfter_lzPos]
+  exact movePosN_lz_bounds N hN P c s _ h.1 h.2
+
+theorem skipN_lzB (N : NormParams) (hN : N.ok) (P : Hc4Params) (c : Cfg) (d : Array UInt8) (n : Nat) :
+    ∀ s, LzB N P c s → LzB N P c (skipN N P c d n s) := by
+  induction n with
+  | zero => intro s h; exact h
+  | succ n ih =>
+    intro s h
+    refine ih _ ?_
+    unfold LzB skip1N
+    rw [skip1After_lzPos]
+    exact movePosN_lz_bounds N hN P c s _ h.1 h.2
+
+theorem runScriptAuxN_lzB (N : NormParams) (hN : N.ok) (P : Hc4Params) (c : Cfg) (d : Array UInt8)
+    (script : List Nat) : ∀ (s : State) (acc : List (Nat × List Match)), LzB N P c s →
+      LzB N P c (runScriptAuxN N P c d script s acc).2 := by
+  induction script with
+  | nil => intro s acc h; exact h
+  | cons op rest ih =>
+    intro s acc h
+    simp only [runScriptAuxN]
+    split
+    · exact h
+    · split
+      · exact ih _ _ (findN_lzB N hN P c d s h)
+      · exact ih _ _ (skipN_lzB N hN P c d op s h)
+
+theorem runScriptAuxN_lz_lt (N : NormParams) (hN : N.ok) (P : Hc4Params) (c : Cfg) (d : Array UInt8)
+    (script : List Nat) (lzStart : Nat) (acc : List (Nat × List Match))
+    (hs : cyclicSize P c ≤ lzStart) (hlt : lzStart < N.maxPos) :
+    (runScriptAuxN N P c d script (initN P c lzStart) acc).2.lzPos < N.maxPos :=
+  (runScriptAuxN_lzB N hN P c d script _ acc ⟨hs, hlt⟩).2
+
 end LzmaVerif.Mf.Hc4
